@@ -94,6 +94,8 @@ def monitor (_cfgF : Fields) (ops : List (Nat × Fields)) : String :=
         s!"FAILS prop=C03 clause={clause} line={ln} step={n} detail={detail.replace " " "_"}"
       if getD f "ret" "" = "deadlock" then fail "reopen_stalls" s!"opening the damaged image ({getD f "kind" ""}) made no progress"
       else if getD f "op" "" ≠ "fault" then go rest (n + 1)
+      else if ((getD f "fw" "-").splitOn "X:").length > 1 then
+        fail "index_reader_panicked_on_damaged_page" s!"fault {getD f "kind" ""}: BlobIndexReader::read panicked on the bytes of a damaged page"
       else if getD f "open" "ok" ≠ "ok" then fail "reopen_panicked" s!"fault {getD f "kind" ""}: open={getD f "open" ""}"
       else
         let reads := parseReads (getD f "reads" "-")
